@@ -11,3 +11,5 @@ pub mod util;
 pub mod c11;
 #[cfg(kani)]
 pub mod c10;
+#[cfg(kani)]
+pub mod c09;
